@@ -79,7 +79,8 @@ def mutants(args):
                 print("mutant %-58s %s does not apply: %s" % (name, prop, proc.stdout.strip()[:100]))
                 continue
             t0 = time.time()
-            env = dict(os.environ, VERIF_REPO=scratch, PYTHONHASHSEED="0")
+            env = dict(os.environ, VERIF_REPO=scratch, PYTHONHASHSEED="0", VERIF_MAX_REPORTED="1",
+                       VERIF_STOP_ON_FIRST="1")
             env.pop("VERIF_TIER", None)
             run = subprocess.run([sys.executable, "-m", "simkit.cli", "run", prop, "--tier", "quick"],
                                  cwd=VERIF, env=env, capture_output=True, text=True, timeout=1800)
